@@ -540,7 +540,7 @@ func toInt(v any) (int, bool, bool) {
 
 		return int(i), true, true
 	case float32:
-		if v > math.MaxInt || v < math.MinInt {
+		if v >= math.MaxInt || v < math.MinInt {
 			return 0, true, false
 		}
 
@@ -550,7 +550,7 @@ func toInt(v any) (int, bool, bool) {
 
 		return int(v), true, true
 	case float64:
-		if v > math.MaxInt || v < math.MinInt {
+		if v >= math.MaxInt || v < math.MinInt {
 			return 0, true, false
 		}
 
